@@ -100,7 +100,7 @@ pub fn work(ctx: &Ctx, rep: &mut Report, g1: (usize, usize), g2_k: (usize, usize
         let sizes = if ctx.thorough { G3_SIZES_THOROUGH } else { G3_SIZES_QUICK };
         let mode_bits: &[u8] = match prop {
             "C04" => &[1, 2, 5, 0],
-            "C05" => &[0, 3],
+            "C05" => &[0, 3, 1],
             "C06" => &[0, 3, 4],
             "C07" => &[4, 1, 3],
             _ => &[0],
@@ -152,5 +152,21 @@ pub fn work(ctx: &Ctx, rep: &mut Report, g1: (usize, usize), g2_k: (usize, usize
             }
         }
         rep.count("g3s_scenario_histories", done);
+    }
+    // G3w: command, perturbation, same command again (stale caches / fast paths)
+    {
+        let sizes: &[(usize, usize)] = if ctx.thorough { &[(4, 3), (1, 1), (6, 5), (2, 1), (1, 4), (9, 2), (3, 2)] } else { &[(4, 3), (1, 1), (6, 5)] };
+        let mut done = 0u64;
+        for (c, r) in sizes {
+            let hs = sandwich_histories(prop, *c, *r);
+            for u in ctx.units(hs.len()) {
+                if done == 11 && *c == 4 {
+                    rep.sample(format!("G3w (command x 28 perturbations x 3 pens, then the same command again; {} histories on {}x{}): {}", hs.len(), c, r, hs[u].brief()));
+                }
+                run_one(prop, &hs[u], rep);
+                done += 1;
+            }
+        }
+        rep.count("g3w_sandwich_histories", done);
     }
 }
